@@ -173,7 +173,9 @@ def big_body(ctx: Ctx, p: dict) -> None:
 # ---------------------------------------------------------------------------------------------------------------
 @st.composite
 def pipeline_cases(draw):
-    pair = draw(gen.image_pair(min_rows=5, max_rows=9, min_cols=7, max_cols=12, max_val=40, masks=True,
+    # radiometry <= 19: every cost and every partial sum of a plane is an integer (or a multiple of 1/4) below 2^22, so
+    # the float32 integral images of the step are exact and the comparison needs no radiometry-dependent tolerance
+    pair = draw(gen.image_pair(min_rows=5, max_rows=9, min_cols=7, max_cols=12, max_val=19, masks=True,
                                conventions="per-image"))
     w = draw(st.sampled_from([1, 1, 3]))
     a = draw(st.integers(-3, 1))
